@@ -331,6 +331,11 @@ func init() {
 				Src string `json:"src"`
 			}
 			if json.Unmarshal(line, &rec) == nil {
+				for _, u := range []string{"dir(", ".keys(", ".values(", ".items("} { // results in map order: unspecified
+					if strings.Contains(rec.Src, u) {
+						return
+					}
+				}
 				srcs = append(srcs, rec.Src)
 			}
 		})
